@@ -357,7 +357,8 @@ const char* edn_simd_find_quote(const char* ptr, const char* end, bool* out_has_
         }
 
         if (out_has_backslash) {
-            *out_has_backslash = has_backslash || (bs_mask != 0);
+            /* backslashes in this block lie after the closing quote */
+            *out_has_backslash = has_backslash;
         }
         return ptr + idx;
     }
@@ -419,7 +420,8 @@ const char* edn_simd_find_quote(const char* ptr, const char* end, bool* out_has_
 
         /* Must be a '"' (we don't have any other specials) */
         if (out_has_backslash) {
-            *out_has_backslash = has_backslash || (bs_mask != 0);
+            /* backslashes in this block lie after the closing quote */
+            *out_has_backslash = has_backslash;
         }
         return ptr + idx;
     }
@@ -482,7 +484,8 @@ const char* edn_simd_find_quote(const char* ptr, const char* end, bool* out_has_
 
         /* Must be a '"' (we don't have any other specials) */
         if (out_has_backslash) {
-            *out_has_backslash = has_backslash || (bs_mask != 0);
+            /* backslashes in this block lie after the closing quote */
+            *out_has_backslash = has_backslash;
         }
         return ptr + idx;
     }
